@@ -51,6 +51,13 @@ impl DecodeAttributeValue for ErrorCode {
     proof { lemma_error_code_unwire_unique(ctx.raw_value@, error); }
 //@end
 }
+// props: C01 C02
+pub proof fn lemma_roundtrip_ErrorCode(x: ErrorCode, enc: Seq<u8>)
+    requires x.encodable(enc), 300 <= x.0.code() < 700,
+    ensures ErrorCode::unwire(x.wire(enc), enc) == Some(x),
+{
+    lemma_error_code_roundtrip(x.0);
+}
 } // mod vx_error_code_attr
 pub use vx_error_code_attr::ErrorCode as ErrorCodeAttr;
 
@@ -606,6 +613,16 @@ impl DecodeAttributeValue for UserName {
     }
 //@end
 }
+// props: C01
+pub proof fn lemma_roundtrip_UserName(x: UserName, enc: Seq<u8>)
+    // a name as UserName::new builds it: accepted by the OpaqueString profile and already in enforced form
+    requires x.encodable(enc), opaque_ok(x.0@), opaque_enforced(x.0@) == x.0@,
+    ensures UserName::unwire(x.wire(enc), enc) == Some(x),
+{
+    vstd::utf8::encode_utf8_valid_utf8(x.0@);
+    vstd::utf8::encode_utf8_decode_utf8(x.0@);
+    lemma_string_of_chars(x.0);
+}
 } // mod vx_user_name
 pub use vx_user_name::UserName;
 
@@ -765,4 +782,31 @@ impl Realm {
             && vstd::utf8::encode_utf8(qs_trim(opaque_prepared(value@))).len() <= 509,
         r is Ok ==> r->Ok_0.0.0@ == qs_trim(opaque_prepared(value@)),
 //@end
+}
+
+// props: C01 C02
+proof fn lemma_roundtrip_PasswordAlgorithm(x: PasswordAlgorithm, enc: Seq<u8>)
+    // canonical algorithm id, parameters (if any) non-empty and at most 65535 bytes
+    requires alg_of(alg_code(x.0.algorithm)) == x.0.algorithm, (x.0.params is Some ==> x.0.params->Some_0@.len() > 0), pa_plen(x.0) <= 0xFFFF,
+    ensures PasswordAlgorithm::unwire(x.wire(enc), enc) == Some(x),
+{
+    let raw = pa_wire(x.0);
+    let n = pa_plen(x.0);
+    lemma_be16_roundtrip(alg_code(x.0.algorithm) as int);
+    lemma_be16_roundtrip(n);
+    assert(raw.subrange(0, 2) =~= be16_seq(alg_code(x.0.algorithm) as int));
+    assert(raw.subrange(2, 4) =~= be16_seq(n));
+    assert(be16(raw.subrange(2, 4)) == n && raw.len() == 4 + n);
+    assert(pa_unwire(raw) is Some);
+    let u = pa_unwire(raw)->Some_0;
+    if x.0.params is Some {
+        assert(n > 0);
+        assert(raw.subrange(4, 4 + n) =~= x.0.params->Some_0@);
+        lemma_arc_vec(x.0.params->Some_0);
+        assert(u.params == Some(vx_arc_vec(raw.subrange(4, 4 + n))));
+    } else {
+        assert(n == 0);
+        assert(u.params is None);
+    }
+    lemma_algorithm_ext(u, x.0);
 }
